@@ -398,6 +398,13 @@ var arrQueries = map[string]string{
 	"max":       "max",
 	"min_by":    "min_by(.k)",
 	"max_by":    "max_by(.k)",
+	// keys of varying arity: the key of an element is [f], here the members of
+	// .k (none when .k is not iterable)
+	"sort_byv":   "sort_by(.k[]?)",
+	"group_byv":  "group_by(.k[]?)",
+	"unique_byv": "unique_by(.k[]?)",
+	"min_byv":    "min_by(.k[]?)",
+	"max_byv":    "max_by(.k[]?)",
 	"bsearch":   ". as [$a, $x] | $a | bsearch($x)",
 	"subtract":  ".[0] - .[1]",
 	"index":     ". as [$a, $x] | $a | index($x)",
@@ -412,7 +419,8 @@ func init() {
 	}
 }
 
-var recordFns = map[string]bool{"sort_by": true, "sort_by2": true, "group_by": true, "group_by2": true, "unique_by": true, "min_by": true, "max_by": true}
+var recordFns = map[string]bool{"sort_by": true, "sort_by2": true, "group_by": true, "group_by2": true, "unique_by": true, "min_by": true, "max_by": true,
+	"sort_byv": true, "group_byv": true, "unique_byv": true, "min_byv": true, "max_byv": true}
 var pairFns = map[string]bool{"bsearch": true, "subtract": true, "index": true, "rindex": true, "indices": true}
 
 // keysOf gives the sort keys of the elements for fn (nil, false when the
@@ -429,6 +437,9 @@ func keysOf(fn string, arr []any) ([]any, bool) {
 		}
 		if strings.HasSuffix(fn, "2") {
 			keys[i] = []any{r["k"], r["j"]}
+		} else if strings.HasSuffix(fn, "v") {
+			_, vs := children(r["k"])
+			keys[i] = append([]any{}, vs...)
 		} else {
 			keys[i] = r["k"]
 		}
@@ -491,7 +502,7 @@ func judgeArr(fn string, arr []any, x any, res run.Result, where string) string 
 	}
 	got := res.Vals[0]
 	switch fn {
-	case "sort", "sort_by", "sort_by2":
+	case "sort", "sort_by", "sort_by2", "sort_byv":
 		out, ok := got.([]any)
 		if !ok || len(out) != len(arr) {
 			return fmt.Sprintf("%s = %s: not an array of the input's length", where, univ.Show(got))
@@ -507,7 +518,7 @@ func judgeArr(fn string, arr []any, x any, res run.Result, where string) string 
 		if i := sameAt(out, arr, stableOrder(keys)); i >= 0 {
 			return fmt.Sprintf("%s = %s: position %d is not the element a stable sort puts there (%s)", where, univ.Show(got), i, univ.Show(arr[stableOrder(keys)[i]]))
 		}
-	case "group_by", "group_by2":
+	case "group_by", "group_by2", "group_byv":
 		out, ok := got.([]any)
 		gs := groupsOf(keys)
 		if !ok || len(out) != len(gs) {
@@ -519,7 +530,7 @@ func judgeArr(fn string, arr []any, x any, res run.Result, where string) string 
 				return fmt.Sprintf("%s = %s: group %d is not the run of equal keys of the stably sorted input", where, univ.Show(got), n)
 			}
 		}
-	case "unique", "unique_by":
+	case "unique", "unique_by", "unique_byv":
 		out, ok := got.([]any)
 		gs := groupsOf(keys)
 		if !ok || len(out) != len(gs) {
@@ -530,7 +541,7 @@ func judgeArr(fn string, arr []any, x any, res run.Result, where string) string 
 				return fmt.Sprintf("%s = %s: element %d is not an input element of the %d-th class of the sorted input", where, univ.Show(got), n, n)
 			}
 		}
-	case "min", "max", "min_by", "max_by":
+	case "min", "max", "min_by", "max_by", "min_byv", "max_byv":
 		if len(arr) == 0 {
 			if got != nil {
 				return fmt.Sprintf("%s = %s, want null", where, univ.Show(got))
@@ -1813,6 +1824,20 @@ func records(fn string, keys []any, t *rapid.T) []any {
 		if strings.HasSuffix(fn, "2") {
 			r["j"] = rapid.IntRange(0, 1).Draw(t, "j")
 		}
+		if strings.HasSuffix(fn, "v") {
+			// keys of 0, 1 or 2 members drawn from the same pool, so that
+			// [], [x], [x, y] and a non-iterable .k meet in one array
+			switch rapid.IntRange(0, 4).Draw(t, "arity") {
+			case 0:
+				r["k"] = []any{}
+			case 1:
+				r["k"] = []any{k}
+			case 2:
+				r["k"] = []any{k, keys[rapid.IntRange(0, len(keys)-1).Draw(t, "k2")]}
+			case 3:
+				r["k"] = map[string]any{"a": k}
+			}
+		}
 		if rapid.IntRange(0, 15).Draw(t, "nokey") == 0 {
 			delete(r, "k") // missing key = null key
 		}
@@ -2062,7 +2087,7 @@ func TestC11(t *testing.T) {
 		for p, k := range arr {
 			recs[p] = map[string]any{"k": k, "p": p}
 		}
-		for _, fn := range []string{"sort_by", "group_by", "unique_by", "min_by", "max_by"} {
+		for _, fn := range []string{"sort_by", "group_by", "unique_by", "min_by", "max_by", "sort_byv", "group_byv", "unique_byv", "min_byv", "max_byv"} {
 			direct(arrCase{Fn: fn, Arr: univ.V{X: recs}})
 		}
 		sorted := true
@@ -2194,12 +2219,12 @@ func TestC11(t *testing.T) {
 		fns []string
 	}{
 		{"sort", 36000, 550000, []string{"sort"}},
-		{"sort_by", 36000, 550000, []string{"sort_by", "sort_by", "sort_by2"}},
-		{"group_by", 30000, 450000, []string{"group_by", "group_by", "group_by2"}},
+		{"sort_by", 36000, 550000, []string{"sort_by", "sort_by", "sort_by2", "sort_byv"}},
+		{"group_by", 30000, 450000, []string{"group_by", "group_by", "group_by2", "group_byv"}},
 		{"unique", 24000, 350000, []string{"unique"}},
-		{"unique_by", 24000, 350000, []string{"unique_by"}},
+		{"unique_by", 24000, 350000, []string{"unique_by", "unique_by", "unique_byv"}},
 		{"minmax", 36000, 450000, []string{"min", "max"}},
-		{"minmax_by", 36000, 450000, []string{"min_by", "max_by"}},
+		{"minmax_by", 36000, 450000, []string{"min_by", "max_by", "min_by", "max_by", "min_byv", "max_byv"}},
 		{"bsearch", 48000, 700000, []string{"bsearch"}},
 		{"subtract", 30000, 450000, []string{"subtract"}},
 		{"index", 48000, 700000, []string{"index", "rindex", "indices"}},
